@@ -19,7 +19,7 @@ RULE = ("generated coolers with 1-3 weight columns (names weight, KR, VC, VC_SQR
 ASSUMPTIONS = ["dense output is NaN wherever either bin is masked (outer product), sparse/pixel outputs only list stored "
                "entries", "one or two multiplications: rtol 1e-12"]
 EXHAUSTIVE = {"quick": "all windows for n<=5", "thorough": "all windows for n<=8"}
-MIN_NONTRIVIAL = {"quick": 1500, "thorough": 15000}
+MIN_NONTRIVIAL = {"quick": 800, "thorough": 8000}
 REQUIRED_FEATURES = ["name:weight", "name:KR", "name:VC", "name:VC_SQRT", "name:custom", "divisive:None", "divisive:True",
                      "divisive:False", "window:rectangular", "window:diagonal-square", "window:empty", "form:dense",
                      "form:sparse", "form:pixels", "form:pixels-join", "missing-column", "cli:dump-b", "mode:square",
